@@ -48,7 +48,7 @@ impl Batch {
     }
     /// Run CPython over all shards in parallel. Returns (disagreement lines, archives, entries, entries read).
     pub fn run_cpython(&self) -> Result<(Vec<String>, u64, u64, u64), String> {
-        let script = format!("{}/pyref/zipcheck.py", crate::util::VERIF_ROOT);
+        let script = format!("{}/pyref/zipcheck.py", crate::util::verif_root());
         let mut children = vec![];
         for s in 0..SHARDS {
             let c = Command::new("python3")
